@@ -71,6 +71,9 @@ func typeKey(t types.Type) string {
 	case *types.Slice:
 		return "Sl" + typeKey(t.Elem())
 	case *types.Array:
+		if t.Len() == -2 {
+			return "Set" + typeKey(t.Elem())
+		}
 		return fmt.Sprintf("A%d%s", t.Len(), typeKey(t.Elem()))
 	case *types.Map:
 		return "M" + typeKey(t.Key()) + "_" + typeKey(t.Elem())
@@ -192,6 +195,9 @@ func (s *Sorts) sortOf(t types.Type) string {
 	case *types.Slice:
 		return "Slice"
 	case *types.Array:
+		if u.Len() == -2 {
+			return "(Array " + s.sortOf(u.Elem()) + " Bool)" // spec-only set[T]
+		}
 		if u.Len() < 0 {
 			// spec-only sequence type seq[T]: uninterpreted sort with an element accessor
 			name := "Seq_" + typeKey(u.Elem())
@@ -255,6 +261,9 @@ func (s *Sorts) zero(t types.Type) Term {
 	case *types.Slice:
 		return "slice_nil"
 	case *types.Array:
+		if u.Len() == -2 {
+			return "((as const (Array " + s.sortOf(u.Elem()) + " Bool)) false)"
+		}
 		return s.constArray(s.sortOf(u.Elem()), s.zero(u.Elem()))
 	case *types.Interface:
 		return "iface_nil"
